@@ -88,9 +88,7 @@ CASES = [
     R("r-acc-swapped", "fit: `stop = result or stop` (same truth value)",
       ("                        stop = stop or result\n", "                        stop = result or stop\n")),
     R("r-predict-inline", "predict: the three stages nested in one return",
-      (PREDICT, "        return self._y_transform.inverse_transform(self.predictor_function_(self._raw_predict(X)))\n"),
-      expect="changed", why="AdvScheduleSrc.lean is byte-identical; the predict-guard table of ValidationTables.lean "
-      "(validation_tables.py, not in this group) changes"),
+      (PREDICT, "        return self._y_transform.inverse_transform(self.predictor_function_(self._raw_predict(X)))\n")),
     R("r-predict-names", "predict: one name per stage",
       (PREDICT, "        raw = self._raw_predict(X)\n        decided = self.predictor_function_(raw)\n"
        "        labels = self._y_transform.inverse_transform(decided)\n        return labels\n")),
